@@ -539,6 +539,14 @@ def ex_Subscript(self, node, fr):
 
 def subscript(self, base, idx):
     ba = base.single_atom()
+    if ba is not None and ba.kind == 'call' and ba.args[0] == 'shape' and len(ba.args[1]) == 1 and idx.const() in (0, 1):
+        # a Frame's data array has the frame's shape: x.data.shape == (x.tchans, x.fchans)
+        xa = ba.args[1][0].single_atom()
+        if xa is not None and xa.kind == 'attr' and xa.args[1] == 'data':
+            ci = self.class_of(xa.args[0])
+            if ci is not None and any(c.name == 'Frame' for c in ci.mro()):
+                fr_ = self.frames[-1] if self.frames else None
+                return self.get_attr(xa.args[0], 'tchans' if idx.const() == 0 else 'fchans', fr_)
     if ba is not None and ba.kind == 'ext' and ba.args[0] in ('numpy.s_', 'numpy.index_exp'):
         return idx                  # np.s_[a:b] is the slice object itself
     ia0 = idx.single_atom()
